@@ -70,6 +70,7 @@ def enc(x: Any) -> Any:
     if isinstance(x, bool) or x is None or isinstance(x, str):
         return x
     if isinstance(x, int):
+        x = int(x)
         if abs(x) > 2**53:
             return {"$i": str(x)}
         return x
@@ -80,7 +81,7 @@ def enc(x: Any) -> Any:
             return {"$f": "inf" if x > 0 else "-inf"}
         if x == 0.0 and math.copysign(1.0, x) < 0:
             return {"$f": "-0.0"}
-        return {"$x": x.hex()} if x != float(repr(x)) else x
+        return float(x)
     if isinstance(x, bytes):
         return {"$b": x.hex()}
     if isinstance(x, tuple):
